@@ -717,3 +717,36 @@ def positional_order(chk, rule, quals):
         chk.ob(rule, "%s:%s{positional order}" % (fi.module.relpath, fi.qualname.split(".", 1)[1]),
                "the positional parameters keep the order callers rely on (%s)" % ", ".join(pin), in_order and new_last,
                derived="now (%s)" % ", ".join(cur), loc=fi.loc(), nontrivial=False)
+
+
+def libns_for(chk, rule, quals):
+    """Every NumPy / SciPy name referenced by the given (anchored) functions exists in the installed library -- resolved from the installed
+    package's stubs / sources by sa/libns.py, nothing is imported or run.  A name the installed library does not export raises
+    AttributeError on every call that reaches it: whatever the function is stated to compute, it computes nothing."""
+    import ast as _ast
+    from . import libns
+    from .program import norm_stmt, local_imports_of
+    P = chk.P
+    n_ob = 0
+    for q in quals:
+        fi = P.functions.get(q)
+        if fi is None:
+            continue
+        li = local_imports_of(fi)
+        seen = {}
+        for n in _ast.walk(fi.node):
+            if isinstance(n, (_ast.Attribute, _ast.Name)):
+                if isinstance(n, _ast.Attribute) and isinstance(getattr(n, "ctx", None), _ast.Store):
+                    continue
+                r = P.resolve_expr(fi.module, n, li)
+                if r and r[0] == "lib":
+                    seen.setdefault(r[1], n)
+        keep = [n for n in seen if not any(o != n and o.startswith(n + ".") for o in seen)]
+        for name in sorted(keep):
+            ex = libns.exists(name)
+            n_ob += 1
+            chk.ob(rule, "%s:%s{%s}" % (fi.module.relpath, q.split(".", 1)[1], name), "%s exists in the installed library" % name, ex is True,
+                   derived={True: "exported", False: "NOT exported by the installed %s" % name.split(".")[0], None: "cannot be resolved statically"}[ex],
+                   loc=fi.loc(seen[name]), stmt=norm_stmt(seen[name]), inconclusive=ex is None,
+                   detail="evaluating it raises AttributeError on every call that reaches it" if ex is False else None)
+    return n_ob
